@@ -326,7 +326,7 @@ def opAt : Nat → Shape → BaseOp → List Act
   | k, s, .deliver kd n => deliver kd n k s
   | k, .subject _, .subscribe _ _ => sect (k + 1) []
   | k, .behavior (.subject ds), .subscribe new n =>
-      sect k (deliver .next n (k + 3 + cellsL ds) new) ++ sect (k + 2) []
+      sect k [] ++ deliver .next n (k + 3 + cellsL ds) new ++ sect (k + 2) []
   | k, .share (.subject _), .subscribe _ _ => sect k (sect (k + 2) [])
   | k, .share (.subject ds), .shareConnect es =>
       sect k (sect (k + 2) [] ++ deliverAll (k + 1) (.subject ds) es)
@@ -408,7 +408,7 @@ theorem opAt_ranked (b : BaseOp) (s : Shape) (k : Nat) (hs : List Nat) (hlt : Be
       cases d with
       | subject ds =>
         simp only [opAt]
-        exact RankedK.append (rk_sect hlt (deliver_ranked new .next n _ _ (by below)))
+        exact RankedK.append (RankedK.append (rk_sect_nil (by below)) (deliver_ranked new .next n _ _ (by below)))
           (rk_sect_nil (by below))
       | _ => exact rk_nil _
     | share d =>
